@@ -18,7 +18,7 @@ import z3
 
 from . import model as M
 from .ast import N, Program
-from .model import (EMPTY, Int, Bool, KIND, NULL, PYNONE, Ref, Str, BackInserter, Bound, ElemRef, Func, Iter, Lam, NodeVal,
+from .model import (EMPTY, Int, Bool, KIND, NULL, PYNONE, Ref, Str, BackInserter, Bound, ElemRef, Func, Iter, Lam, NodeVal, OptNode,
                     NodeVec, Opaque, PairVec, Ptr, PtrVec, PyObj, ScalarVec, SpecObj, Tup, fresh)
 
 
@@ -343,6 +343,10 @@ class Engine:
             return consts[name]
         if name.startswith('k') and name[1:] in KIND:
             return z3.IntVal(KIND[name[1:]])
+        if name in ('PyTuple_Type', 'PyList_Type', 'PyDict_Type'):
+            return PyObj(z3.Const('py_' + name[2:-5].lower(), Ref), stable=True)
+        if name == '_Py_NoneStruct':
+            return PyObj(PYNONE, stable=True)
         hook = getattr(self.cur_contract, 'global_value', None)
         if hook:
             return hook(self, name, n)
@@ -521,6 +525,10 @@ class Engine:
             self.write_place(st, p, new)
             return [(st, old if n.get('postfix') else new)]
         if op == '&':
+            if n.c[0].k == 'DeclRefExpr' and st.scope.lookup(n.c[0].name) is None:
+                g = self.global_value(n.c[0].name, n.c[0])
+                if g is not None:
+                    return [(st, g)]
             # address-of: only &agenda[i] style is modelled, as an element reference
             st, p = self.place(n.c[0], st)
             if p[0] == 'elem':
@@ -546,6 +554,9 @@ class Engine:
         if isinstance(v, Iter):
             return ElemRef(v.oid, self.iter_index(st, v))
         if isinstance(v, PyObj):     # *optional<py::function>
+            return v
+        if is_z3(v) and v.sort() == Ref:      # shared_ptr<const Registration>
+            self.oblige(st, 'II', 'shared_ptr-deref:non-null', v != NULL)
             return v
         raise Unsupported(f'deref {v!r}')
 
@@ -781,14 +792,37 @@ class Engine:
                 raise Unsupported(f'subscript of {base!r}')
         return outs
 
+    def e_CXXRewrittenBinaryOperator(self, n, st):
+        return self.ev(n.c[0], st)
+
     def e_LambdaExpr(self, n, st):
         return [(st, Lam(n, st.scope))]
 
     def e_InitListExpr(self, n, st):
         outs = []
+        if type_class(n.t) == 'node':
+            fields = list(M.NODE_FIELDS)
+            # clang lists the initialisers in declaration order of struct Node (defaults as CXXDefaultInitExpr)
+            order = ['kind', 'arity', 'node_data', 'node_entries', 'custom', 'num_leaves', 'num_nodes', 'original_keys']
+            for s, vals in self.ev_seq(n.c, st):
+                nv = NodeVal.default()
+                for f, v in zip(order, vals):
+                    if isinstance(v, Opaque) and v.tag == 'default-init':
+                        continue
+                    v = self.load(s, v)
+                    if M.NODE_FIELDS[f] == Ref:
+                        v = NULL if isinstance(v, Ptr) and v.oid is None else refof(v)
+                    else:
+                        v = as_int(v)
+                    nv = nv.with_(f, v)
+                outs.append((s, nv))
+            return outs
         for s, vals in self.ev_seq(n.c, st):
             outs.append((s, Tup(tuple(vals))))
         return outs
+
+    def e_CXXDefaultInitExpr(self, n, st):
+        return [(st, Opaque('default-init'))]
 
     def e_CXXStdInitializerListExpr(self, n, st):
         return self.ev(n.c[0], st)
@@ -1009,8 +1043,15 @@ class Engine:
             outs += self.branch(s, as_bool(self.load(s, c)), then_n, else_n)
         return outs
 
+    def relational_check(self, st, cond, what, line=0):
+        rel = getattr(self.cur_contract, 'relational', None)
+        if rel is not None and self.inline_depth >= 0:
+            rel(self, st, cond, what, line)
+
     def branch(self, st, cond, then_n, else_n):
         cond = z3.simplify(cond)
+        if not (z3.is_true(cond) or z3.is_false(cond)):
+            self.relational_check(st, cond, 'branch')
         outs = []
         if z3.is_true(cond):
             return self.ex(then_n, st)
@@ -1054,6 +1095,7 @@ class Engine:
                         else:
                             conds.append(v == l)
                     entries.append((idx, z3.Or(*conds)))
+            self.relational_check(s, v, 'switch')
             for idx, c in entries:
                 s2 = s.clone()
                 self.assume(s2, c)
@@ -1203,9 +1245,16 @@ class Engine:
         self.havoc(hst, mod_vars, mod_heap, k)
         for name, e in spec.inv(Ctx(self, hst, entry=entry)):
             hst.facts.append(e)
+        # arithmetic hints: valid identities (proved on their own, with no hypotheses) that the solver will not find
+        if hasattr(spec, 'hints'):
+            for name, e in spec.hints(Ctx(self, hst, entry=entry)):
+                # proved in the loop-head context (instances of axioms / arithmetic identities), then used as a fact
+                self.oblige(hst, 'L', f'loop{k}:lemma:{name}', e, line)
+                hst.facts.append(e)
         # 3. an arbitrary iteration
         it = hst.clone()
         c = cond(it)
+        self.relational_check(it, c, f'loop{k}-condition', line)
         self.assume(it, c)
         outs = []
         if self.feasible(it):
